@@ -1,3 +1,5 @@
+//go:build !noh4
+
 package verifharness
 
 import (
